@@ -63,11 +63,12 @@ func (t *manualTrigger) fire(h, v uint64, tag string) bool {
 }
 
 type gatedUtils struct {
-	log     *rtLog
-	mu      sync.Mutex
-	gate    chan struct{}
-	lastCtx context.Context
-	nextID  uint64
+	log      *rtLog
+	mu       sync.Mutex
+	gate     chan struct{}
+	propGate chan struct{} // parks the next RequestNewBlockProposal
+	lastCtx  context.Context
+	nextID   uint64
 }
 
 func (g *gatedUtils) setGate() chan struct{} {
@@ -80,7 +81,17 @@ func (g *gatedUtils) RequestNewBlockProposal(ctx context.Context, h primitives.B
 	g.mu.Lock()
 	g.nextID++
 	b := &vblock{height: h, id: 5000 + g.nextID}
+	gate := g.propGate
+	g.propGate = nil
+	if gate != nil {
+		g.lastCtx = ctx
+	}
 	g.mu.Unlock()
+	if gate != nil {
+		g.log.add(0, "SPI+propose", uint64(h), 0, 0, ctx.Err() != nil, "")
+		<-gate // deaf to ctx: it returns a block however late
+		g.log.add(0, "SPI-propose", uint64(h), 0, 0, ctx.Err() != nil, "")
+	}
 	return b, blockHash(b)
 }
 func (g *gatedUtils) ValidateBlockProposal(ctx context.Context, h primitives.BlockHeight, leader primitives.MemberId, block interfaces.Block, hash primitives.BlockHash, prev interfaces.Block) error {
@@ -514,7 +525,69 @@ func directedInboxFlood(rep *Report, seed int64) {
 	}
 }
 
+// a leader elected by view change whose RequestNewBlockProposal comes back after the election of its view: the block was
+// produced under a cancelled context and must not be broadcast in a NEW_VIEW (C15, last clause)
+func directedLateProposalOfElectedLeader(rep *Report, seed int64) {
+	d := newDirectedNode(seed)
+	fail := func(prop, sig, detail string) { rep.finding(prop, sig, detail, d.replay()) }
+	defer func() {
+		if !d.stop() {
+			fail("C16", "shutdown-hangs", "directed late-proposal scenario: WaitUntilShutdown did not return")
+		}
+	}()
+	rep.count("runtime:directed-late-proposal-of-elected-leader")
+	go d.lh.UpdateState(d.ctx, nil, nil)
+	if !d.waitFor("NR", 1, 0, 3*time.Second) {
+		fail("C14", "sync-no-effect", "directed: UpdateState(genesis) did not start height 1")
+		return
+	}
+	// at height 1 the committee order is 1, 2, 3, 0: member 0 (this node) leads view 3
+	pg := make(chan struct{})
+	d.utils.mu.Lock()
+	d.utils.propGate = pg
+	d.utils.mu.Unlock()
+	var opened int32
+	open := func() {
+		if atomic.CompareAndSwapInt32(&opened, 0, 1) {
+			close(pg)
+		}
+	}
+	defer open()
+	for _, id := range []uint64{1, 2, 3} {
+		vc := d.cdc.encode(&aMsg{Kind: "VC", Vote: &aVote{uint64(protocol.LEAN_HELIX_VIEW_CHANGE), rtInst, 1, 3, nil, aSig{Id: id, Ok: true}}})
+		go d.lh.HandleConsensusMessage(d.ctx, vc)
+	}
+	if !d.waitFor("SPI+propose", 1, 0, 3*time.Second) {
+		rep.count("runtime:directed-setup-failed")
+		return
+	}
+	callCtx := d.utils.ctxOfCall()
+	if !d.waitFor("ARM", 1, 3, time.Second) {
+		rep.count("runtime:directed-setup-failed")
+		return
+	}
+	if !d.trig.fire(1, 3, "own-view") {
+		fail("C14", "main-loop-blocked", "directed: the main loop did not take an election trigger while the worker was inside an SPI call")
+		return
+	}
+	if !ctxDoneWithin(callCtx, time.Second) {
+		fail("C15", "context-not-cancelled-by-election", "directed: the context of RequestNewBlockProposal for (1,3) was not cancelled within 1s of the election trigger for (1,3)")
+	}
+	open()
+	if !d.waitFor("ACT", 1, 3, 3*time.Second) {
+		fail("C19", "newest-trigger-lost", "directed: the election of (1,3) never happened after the proposal call returned")
+		return
+	}
+	time.Sleep(20 * time.Millisecond)
+	for _, e := range d.log.snapshot() {
+		if e.Kind == "SEND" && e.A == uint64(protocol.LEAN_HELIX_NEW_VIEW) && e.V == 3 {
+			fail("C15", "proposal-after-cancel", "directed: a NEW_VIEW for (1,3) was broadcast although RequestNewBlockProposal returned after its context was cancelled by the election of (1,3)")
+		}
+	}
+}
+
 func runDirected(rep *Report, seed int64, thorough bool) {
+	directedLateProposalOfElectedLeader(rep, seed+103)
 	directedInboxFlood(rep, seed+102)
 	directedFutureViewProposal(rep, seed+100)
 	directedNewViewValidation(rep, seed+101)
